@@ -201,6 +201,20 @@ def vec_getattr(M, interp, v, name, node):
         return v.tz
     if name in PERIOD_ATTRS and v.kind == 'dtindex':
         return period_feature(interp, v, name, node)
+    if v.dtype == 'm8' and v.kind in ('index', 'series') and name in ('seconds', 'days', 'total_seconds'):
+        # timedelta components: .seconds is the 0..86399 remainder, .days the whole days (pandas semantics)
+        def comp(d, which):
+            if not X.is_num(d):
+                return d if d in (X.NAN, X.ANY) else X.fn('td_' + which, d)
+            days = math.floor(d[1] / 86400)
+            if which == 'days':
+                return X.num(days)
+            if which == 'seconds':
+                return X.num(math.floor(d[1] - days * 86400))
+            return d
+        if name == 'total_seconds':
+            return PyCallable(lambda it, a, k, n: Vec.fresh([El(e.d, False) for e in v.els()], kind='index', dtype='f8'), 'total_seconds')
+        return Vec.fresh([El(comp(e.d, name), False) for e in v.els()], kind='index', dtype='i8')
     if name == 'fill_value' and v.kind == 'ma':
         return getattr(v, '_fill', None)
     if name in VEC_METHODS:
@@ -233,6 +247,36 @@ class DtAccessor:
         raise AnalysisError(f'.dt.{name} not modelled', node)
 
 
+def calendar_value(seconds, canon):
+    """calendar attribute of an epoch-seconds instant (proleptic Gregorian, UTC) via the stdlib datetime module"""
+    import datetime as _dt
+    import calendar as _cal
+    if seconds.denominator != 1 and canon not in ('microsecond', 'nanosecond'):
+        seconds = Fr(math.floor(seconds))
+    t = _dt.datetime(1970, 1, 1) + _dt.timedelta(seconds=int(seconds))
+    if canon == 'week':
+        return t.isocalendar()[1]
+    if canon == 'dayofyear':
+        return t.timetuple().tm_yday
+    if canon == 'dayofweek':
+        return t.weekday()
+    if canon == 'quarter':
+        return (t.month - 1) // 3 + 1
+    if canon == 'days_in_month':
+        return _cal.monthrange(t.year, t.month)[1]
+    if canon == 'is_leap_year':
+        return _cal.isleap(t.year)
+    if canon in ('year', 'month', 'day', 'hour', 'minute', 'second'):
+        return getattr(t, canon)
+    if canon in ('microsecond', 'nanosecond'):
+        return 0
+    if canon == 'is_month_start':
+        return t.day == 1
+    if canon == 'is_month_end':
+        return t.day == _cal.monthrange(t.year, t.month)[1]
+    raise KeyError(canon)
+
+
 def period_feature(interp, v, name, node):
     """calendar attribute of a DatetimeIndex: the skeleton supplies the per-point values"""
     feats = getattr(interp, 'time_features', None)
@@ -240,10 +284,17 @@ def period_feature(interp, v, name, node):
              'daysinmonth': 'days_in_month'}.get(name, name)
     out = []
     for e in v.els():
-        if feats is None or not X.is_num(e.d) or (e.d[1], canon) not in feats:
-            raise AnalysisError(f'calendar feature {name} of a time not supplied by the scenario', node)
-        out.append(El(X.num(feats[(e.d[1], canon)]), False))
-    return Vec.fresh(out, kind='index', dtype='i8')
+        if not X.is_num(e.d):
+            raise AnalysisError(f'calendar feature {name} of a symbolic / missing time', node)
+        if feats is not None and (e.d[1], canon) in feats:
+            val = feats[(e.d[1], canon)]
+        else:
+            try:
+                val = calendar_value(e.d[1], canon)
+            except (KeyError, OverflowError, ValueError):
+                raise AnalysisError(f'calendar feature {name} not modelled', node)
+        out.append(El(X.TRUE if val is True else (X.FALSE if val is False else X.num(val)), False))
+    return Vec.fresh(out, kind='index', dtype='b1' if canon.startswith('is_') else 'i8')
 
 
 # ------------------------------------------------------------------------------------------------
@@ -791,6 +842,20 @@ def register(M):
     E['numpy.ma.abs'] = E['numpy.ma.absolute'] = E['numpy.ma.abs_operator'] = unary_ufunc(X.abs_, ma_operator=True)
     E['numpy.sign'] = unary_ufunc(X.sign)
     E['numpy.negative'] = unary_ufunc(X.neg)
+    def _rounder(pyfn, name):
+        def f(d):
+            if X.is_num(d):
+                return X.num(pyfn(d[1]))
+            if d in (X.NAN, X.ANY):
+                return d
+            return X.fn(name, d)
+        return f
+    E['numpy.rint'] = E['numpy.round'] = E['numpy.around'] = E['numpy.round_'] = unary_ufunc(_rounder(lambda v: Fr(round(v)), 'rint'))
+    E['numpy.floor'] = unary_ufunc(_rounder(floor_fr, 'floor'))
+    E['numpy.ceil'] = unary_ufunc(_rounder(lambda v: Fr(math.ceil(v)), 'ceil'))
+    E['numpy.trunc'] = E['numpy.fix'] = unary_ufunc(_rounder(trunc_fr, 'trunc'))
+    E['numpy.sqrt'] = unary_ufunc(lambda d: X.fn('sqrt', d) if not (X.is_num(d) and d[1] in (0, 1)) else d)
+    E['numpy.square'] = unary_ufunc(lambda d: X.mul(d, d))
     E['numpy.isnan'] = unary_ufunc(lambda d: X.TRUE if d == X.NAN else (X.UNK if d == X.ANY else X.FALSE), out_dtype='b1')
     E['numpy.isfinite'] = unary_ufunc(lambda d: X.FALSE if d == X.NAN else (X.UNK if d == X.ANY else X.TRUE), out_dtype='b1')
     E['numpy.logical_not'] = unary_ufunc(lambda d: X.f_not(bool_of_el(d)), out_dtype='b1')
@@ -937,6 +1002,53 @@ def register(M):
             out.append(El(X.ite(f, ea.d, eb.d), ea.m if f != X.FALSE else eb.m))
         tmpl = a if isinstance(a, Vec) else (b if isinstance(b, Vec) else c)
         return Vec.fresh(out, kind=tmpl.kind if tmpl is not c else 'nd', dtype=tmpl.dtype if tmpl is not c else 'f8')
+
+    @ext('numpy.flatnonzero', 'numpy.nonzero', 'numpy.argwhere')
+    def _flatnonzero(interp, args, kw, node):
+        c = as_vec(interp, args[0], node)
+        if c is None:
+            raise AnalysisError('flatnonzero argument not modelled', node)
+        items = [(i, X.f_and(X.f_not(m_formula(e.m)), bool_of_el(e.d)) if c.kind == 'ma' else bool_of_el(e.d)) for i, e in enumerate(c.els())]
+        if all(f in (X.TRUE, X.FALSE) for _, f in items):
+            res = Vec.fresh([El(X.num(i), False) for i, f in items if f == X.TRUE], kind='nd', dtype='i8')
+        else:
+            res = IndexSet(items)
+        if node is not None and getattr(getattr(node, 'func', None), 'attr', '') == 'nonzero':
+            return (res,)
+        return res
+
+    @ext('numpy.ma.getmaskarray', 'numpy.ma.getmask')
+    def _getmaskarray(interp, args, kw, node):
+        v = as_vec(interp, args[0], node)
+        if v is None:
+            raise AnalysisError('getmaskarray argument not modelled', node)
+        return Vec.fresh([El(m_formula(e.m) if v.kind == 'ma' else X.FALSE, False) for e in v.els()], kind='nd', dtype='b1')
+
+    @ext('numpy.ma.getdata')
+    def _getdata(interp, args, kw, node):
+        v = as_vec(interp, args[0], node)
+        return Vec.fresh([El(e.d, False) for e in v.els()], kind='nd', dtype=v.dtype, unit=v.unit)
+
+    @ext('numpy.ma.where')
+    def _ma_where(interp, args, kw, node):
+        """np.ma.where(c, a, b): like np.where on the data, result masked where the condition (or the chosen branch) is masked"""
+        if len(args) != 3:
+            raise AnalysisError('np.ma.where with one argument not modelled', node)
+        c = as_vec(interp, args[0], node)
+        if c is None:
+            raise AnalysisError('np.ma.where condition not modelled', node)
+        a, b = args[1], args[2]
+        out = []
+        for i, ce in enumerate(c.els()):
+            ea = a.el(i) if isinstance(a, Vec) else El(num_of_el(as_operand(a)[1]), False)
+            eb = b.el(i) if isinstance(b, Vec) else El(num_of_el(as_operand(b)[1]), False)
+            f = bool_of_el(ce.d)
+            cm = ce.m if c.kind == 'ma' else False
+            bm = m_ite(f, ea.m, eb.m) if f not in (X.TRUE, X.FALSE) else (ea.m if f == X.TRUE else eb.m)
+            out.append(El(X.ite(f, ea.d, eb.d), m_or(cm, bm)))
+        tmpl = a if isinstance(a, Vec) else (b if isinstance(b, Vec) else None)
+        dt = tmpl.dtype if tmpl is not None else ('i8' if all(isinstance(v, int) for v in (a, b)) else 'f8')
+        return Vec.fresh(out, kind='ma', dtype=dt)
 
     @ext('numpy.errstate')
     def _errstate(interp, args, kw, node):
